@@ -449,9 +449,10 @@ def matches_known(prop, known, ops, fail):
 
 # ----------------------------------------------------------------------------- the check
 def write_replay(prop, engine, cid, ops, fail, impl_out, model_out, note=""):
-    os.makedirs(os.path.join(ROOT, "replays"), exist_ok=True)
+    rdir = os.path.join(ROOT, "replays") if not ALT else os.path.join(WORK, "replays" + ALT)
+    os.makedirs(rdir, exist_ok=True)
     h = hashlib.sha1(("\n".join(ops) + prop + note).encode()).hexdigest()[:12]
-    path = os.path.join(ROOT, "replays", "%s-%s.json" % (prop, h))
+    path = os.path.join(rdir, "%s-%s.json" % (prop, h))
     json.dump({
         "property": prop, "engine": engine, "case": cid, "ops": ops,
         "kind": fail.kind if fail else "theorem", "clause": fail.clause if fail else "",
